@@ -882,7 +882,8 @@ def decoder_window(ctx, chk, prog, facts):
                     chk.error('C01.11: get_executable_memory_segment does not return a slice view')
                     return
                 n_ok += 1
-                ln = conv(r.ret[4])
+                from ..affine import simplify as _simplify
+                ln = conv(_simplify(r.ret[4], r.state.env))
                 D = m.AND(K, ln.ult(BV.const(m, len(ln), window)))
                 if D != 0:
                     w = m.witness(D)
